@@ -16,6 +16,11 @@ VARIANTS = {
     # name: (compiler, flags, defines)
     "asan":  ("gcc", "-std=c99 -O1 -g -fno-omit-frame-pointer -fsanitize=address,undefined -fno-sanitize=alignment -fno-sanitize-recover=all", []),
     "asan2": ("gcc", "-std=c99 -O1 -g -fno-omit-frame-pointer -fsanitize=address,undefined -fno-sanitize=alignment -fno-sanitize-recover=all", ["CO_SSDO_N=2", "CO_CSDO_N=2"]),
+    # services switched off at compile time (no LSS slave, no SDO client)
+    "lean":  ("gcc", "-std=c99 -O1 -g -fno-omit-frame-pointer -fsanitize=address,undefined -fno-sanitize=alignment -fno-sanitize-recover=all", ["USE_LSS=0", "USE_CSDO=0"]),
+    # PDO channel counts that differ from each other and from the default (4 / 4)
+    "asanp": ("gcc", "-std=c99 -O1 -g -fno-omit-frame-pointer -fsanitize=address,undefined -fno-sanitize=alignment -fno-sanitize-recover=all", ["CO_RPDO_N=2", "CO_TPDO_N=6"]),
+    "asanq": ("gcc", "-std=c99 -O1 -g -fno-omit-frame-pointer -fsanitize=address,undefined -fno-sanitize=alignment -fno-sanitize-recover=all", ["CO_RPDO_N=5", "CO_TPDO_N=3"]),
     "casan": ("clang-14", "-std=c99 -O1 -g -fno-omit-frame-pointer -fsanitize=address,undefined -fno-sanitize=alignment -fno-sanitize-recover=all", []),
     "plain": ("gcc", "-std=c99 -O2 -g -DNDEBUG", []),
     "plain2": ("gcc", "-std=c99 -O2 -g -DNDEBUG", ["CO_SSDO_N=2"]),
